@@ -102,7 +102,17 @@ func runScenarioW(t fataler, full *util.MemoryNodeDB, root []byte, model map[str
 		}
 		damaged = level
 	}
-	w := refmpt.WalkFrom(root, mptkit.GetterOf(damaged), false)
+	walkDB := damaged
+	if mode == "rebased" {
+		// the trie lived on a level over the complete store; then its store is exchanged (SetNodeDB) for one that lacks
+		// nodes: from then on only that store counts
+		lvl := util.NewLevelNodeDB(util.NewMemoryNodeDB(), copyDB(full, nil), false)
+		lived := mptkit.NewTrie(lvl, version, root)
+		lived.SetNodeDB(damaged)
+		damaged = lvl
+		open = func() *util.MerklePatriciaTrie { return util.CloneMPT(lived) }
+	}
+	w := refmpt.WalkFrom(root, mptkit.GetterOf(walkDB), false)
 	M := w.Missing
 	mpt := open()
 
@@ -199,6 +209,21 @@ func runScenarioW(t fataler, full *util.MemoryNodeDB, root []byte, model map[str
 		donorMem = copyDB(full, keep)
 	} else {
 		donorMem = copyDB(full, nil)
+	}
+	// a prune pass on the donor's side has marked a third of its nodes with a newer version (the mark is not part of a
+	// node's identity)
+	if version%2 == 1 {
+		marked := util.NewMemoryNodeDB()
+		i := 0
+		_ = donorMem.Iterate(context.Background(), func(ctx context.Context, key util.Key, node util.Node) error {
+			nd := node.CloneNode()
+			if i%3 == 0 {
+				nd.SetVersion(nd.GetOrigin() + util.Sequence(2+i%5))
+			}
+			i++
+			return marked.PutNode(key, nd)
+		})
+		donorMem = marked
 	}
 	donor = donorMem
 	// the donor is a plain memory store, or a level whose nodes are spread over its two layers, or a level over a
@@ -398,7 +423,7 @@ func TestMissingNodesAndRepair(t *testing.T) {
 			desc := func() string {
 				return fmt.Sprintf("ops %v v0=%d version=%d removed=%v (%s) donor=%s", ops, v0, version, keysOf(removed), kinds[i], donorMode)
 			}
-			mode := []string{"cold", "cold", "warm", "layered", "cold", "warm"}[i%6]
+			mode := []string{"cold", "rebased", "warm", "layered", "cold", "warm", "cold"}[i%7]
 			warm := mode == "warm"
 			desc0 := desc
 			if warm {
@@ -418,6 +443,9 @@ func TestMissingNodesAndRepair(t *testing.T) {
 			}
 			if mode == "layered" {
 				cls = append(cls, "layered-store")
+			}
+			if mode == "rebased" {
+				cls = append(cls, "store-exchanged-under-a-trie-on-a-level")
 			}
 			if version != v0 {
 				cls = append(cls, "version-differs")
